@@ -15,7 +15,8 @@ PROP = 'C18'
 MOD = 'vp.props.c18'
 TEXTS = ['a = (1,\n b)\n', 'if x:\n  y\nelse:\n  $\n', "f'{a!r:>{w}}' \n", 'def f(a, *, b=1): return (yield)\n',
          'class C:\n\tx: int = 1\nglobal x\n', 'import a.b as c\nlambda: 0',
-         'x = 1\n    y = 2\nz = 3\n', "a = f'{b!r:>{c}' \n  d = (\ndef e(): pass\n"]
+         'x = 1\n    y = 2\nz = 3\n', "a = f'{b!r:>{c}' \n  d = (\ndef e(): pass\n",
+         'f(a=1, a=2)\n1 = x\ndel f()\ndef g(a, a): pass\nbreak\nx = *y\n']
 KINDS = ['parse', 'strict', 'errors', 'pep8', 'tokenize', 'load']
 
 
@@ -391,6 +392,84 @@ def cold_shard(v, texts, ks, start):
     return acc.strip()
 
 
+# ---- cold start in truly fresh interpreters ---------------------------------------------------------
+def _cold_body(v, ti):
+    def b():
+        import parso
+        g = parso.load_grammar(version=v)
+        m = g.parse(TEXTS[ti])
+        out = [m.dump(indent=None), [[i.code, i.message, list(i.start_pos)] for i in g.iter_errors(m)]]
+        try:
+            out.append([[i.code, list(i.start_pos)] for i in g._get_normalizer_issues(m)])
+        except Exception as e:
+            out.append(['exception'] + list(core.exc_sig(e)))
+        return out
+    return b
+
+
+def fresh_cold_plan(v, tis):
+    """(run inside a fresh interpreter) the scheduling points worth preempting at in a cold start: steps whose
+    source line is executed by the first (cold) run of a body but not by a second (warm) run - that is where
+    first-use memoisation happens, whatever caches exist.  Prints JSON: {steps, sequential results}."""
+    env.setup()
+    from ..sched import Execution
+    b0 = _cold_body(v, tis[0])
+    ex1 = Execution([b0], start=0, atomic=COLD_ATOMIC)
+    r1 = ex1.go()
+    ex2 = Execution([b0], start=0, atomic=COLD_ATOMIC)
+    ex2.go()
+    warm = {(f, l) for (_, f, l) in ex2.trace}
+    steps = [i + 1 for i, (_, f, l) in enumerate(ex1.trace) if (f, l) not in warm]
+    seq = [norm(r1[0][1]) if r1[0][0] == 'ok' else list(r1[0]), None]
+    b1 = _cold_body(v, tis[1])
+    seq[1] = norm(b1())
+    return {'steps': steps, 'seq': seq}
+
+
+def fresh_cold_exec(v, tis, start, k):
+    """(run inside a fresh interpreter) two cold threads, thread `start` preempted at step k"""
+    env.setup()
+    from ..sched import Execution
+    bodies = [_cold_body(v, tis[0]), _cold_body(v, tis[1])]
+    ex = Execution(bodies, start=start, preempts=((k, 1 - start),), atomic=COLD_ATOMIC)
+    res = ex.go()
+    return {'res': [list(r) if r[0] != 'ok' else ['ok', norm(r[1])] for r in res], 'switches': ex.switches}
+
+
+def _fresh(call):
+    code = ('import sys, json; sys.path.insert(0, %r); from vp import env; env.setup(); '
+            'from vp.props import c18; print("RESULT=" + json.dumps(c18.%s))' % (env.VERIF, call))
+    e = dict(os.environ, PYTHONHASHSEED='0', PYTHONDONTWRITEBYTECODE='1', VP_REPO=env.REPO, VP_NPROC='1')
+    r = subprocess.run([sys.executable, '-c', code], stdout=subprocess.PIPE, stderr=subprocess.PIPE, env=e, cwd=env.VERIF)
+    for line in r.stdout.decode().splitlines():
+        if line.startswith('RESULT='):
+            return json.loads(line[7:])
+    raise RuntimeError('fresh interpreter failed: %s' % r.stderr.decode()[-600:])
+
+
+def fresh_cold_shard(v, tis, start, ks, seq):
+    env.setup()
+    acc = _acc()
+    for k in ks:
+        acc.evaluations += 1
+        case = {'schedule': {'cold': 'fresh-interpreter', 'version': v, 'texts': list(tis), 'start': start, 'preempts': [[k, 1 - start]]}}
+        try:
+            out = _fresh('fresh_cold_exec(%r, %r, %d, %d)' % (v, list(tis), start, k))
+        except Exception as e:
+            acc.fail(('cold-fresh-execution-failed',), case, repr(e))
+            continue
+        if out['switches']:
+            acc.nontrivial += 1
+        for i, r in enumerate(out['res']):
+            if r[0] != 'ok':
+                acc.fail(('cold-fresh-thread-raises', r[1]), case, r[2] if len(r) > 2 else '')
+                break
+            if r[1] != seq[i]:
+                acc.fail(('cold-fresh-thread-result-differs', 'thread%d' % i), case, '')
+                break
+    return acc.strip()
+
+
 def count_cold_steps(v, texts, start):
     env.setup()
     from ..sched import Execution
@@ -445,6 +524,14 @@ def _recheck_inproc(case):
         s = case['schedule']
         if not s.get('cold') and not s.get('preempts'):
             a = sched_shard(s['threads'], s['version'], 0, [5, 50])
+            return {sig for (_, sig) in a.fails}
+        if s.get('cold') == 'fresh-interpreter':
+            plan = _fresh('fresh_cold_plan(%r, %r)' % (s['version'], s['texts']))
+            seq = plan['seq'] if s['start'] == 0 else None
+            if seq is None:
+                plan2 = _fresh('fresh_cold_plan(%r, %r)' % (s['version'], s['texts'][::-1]))
+                seq = plan2['seq'][::-1]
+            a = fresh_cold_shard(s['version'], s['texts'], s['start'], [s['preempts'][0][0]], seq)
             return {sig for (_, sig) in a.fails}
         if s.get('cold') and not s.get('preempts'):
             a = cold_shard(s['version'], [0, 1], [5], 0)
@@ -551,6 +638,14 @@ def run(tier, seed):
             n = _ordered_map('count_cold_steps', [(v, [0, 1], st)])[0]
             add('cold start 2 threads %s start=%d (%d steps)' % (v, st, n), 'cold_shard',
                 [(v, [0, 1], list(range(1, n + 1))[i::8], st) for i in range(8)])
+    # cold start in fresh interpreters, preempting at the cold-only lines (first-use memoisation of any kind)
+    for v, tis in ((('3.9', (4, 8)),) if quick else (('3.9', (4, 8)), ('3.13', (8, 4)), ('3.7', (1, 8)))):
+        plan0 = _fresh('fresh_cold_plan(%r, %r)' % (v, list(tis)))
+        ks = plan0['steps']
+        if quick:
+            ks = ks[::2] if len(ks) > 160 else ks
+        add('cold start in fresh interpreters %s texts %s (%d cold-only steps)' % (v, list(tis), len(plan0['steps'])),
+            'fresh_cold_shard', [(v, list(tis), 0, ks[i::16], plan0['seq']) for i in range(16)])
     accs = [core.Acc() for _ in labels]
     for i, a in core.pmap(MOD, 'tagged', jobs):
         accs[i].merge(a)
